@@ -4,7 +4,7 @@
 use crate::norm::ts;
 use syn::*;
 
-pub struct Expanded { pub name: String, pub lines: (usize, usize), pub via: String, pub item: Item, pub imp: ItemImpl }
+pub struct Expanded { pub file: String, pub name: String, pub lines: (usize, usize), pub via: String, pub item: Item, pub imp: ItemImpl }
 
 pub fn helper_dir() -> std::path::PathBuf {
     if let Ok(d) = std::env::var("VX_DERIVE_HELPER") { return d.into(); }
@@ -14,10 +14,13 @@ pub fn helper_dir() -> std::path::PathBuf {
     root.join("tools/derive_expand")
 }
 
-pub fn run_helper(repo: &str, file: &str, names: &[String]) -> std::result::Result<Vec<Expanded>, String> {
+/// one helper run for all `@derive` directives of the unit: groups = [(file, names)]
+pub fn run_helper(repo: &str, groups: &[(String, Vec<String>)]) -> std::result::Result<Vec<Expanded>, String> {
     let script = helper_dir().join("run.sh");
-    let out = std::process::Command::new(&script).arg(repo).arg(file).args(names).output()
-        .map_err(|e| format!("UNSUPPORTED cannot run derive helper {}: {}", script.display(), e))?;
+    let mut cmd = std::process::Command::new(&script);
+    cmd.arg(repo);
+    for (k, (file, names)) in groups.iter().enumerate() { if k > 0 { cmd.arg("--"); } cmd.arg(file).args(names); }
+    let out = cmd.output().map_err(|e| format!("UNSUPPORTED cannot run derive helper {}: {}", script.display(), e))?;
     if !out.status.success() {
         let err = String::from_utf8_lossy(&out.stderr);
         let first = err.lines().find(|l| !l.trim().is_empty()).unwrap_or("derive helper failed").to_string();
@@ -30,7 +33,7 @@ pub fn run_helper(repo: &str, file: &str, names: &[String]) -> std::result::Resu
         let name = v["name"].as_str().unwrap_or("").to_string();
         let item: Item = parse_str(v["item"].as_str().unwrap_or("")).map_err(|e| format!("UNSUPPORTED derive {}: type item: {}", name, e))?;
         let imp: ItemImpl = parse_str(v["impl"].as_str().unwrap_or("")).map_err(|e| format!("UNSUPPORTED derive {}: macro output is not an impl: {}", name, e))?;
-        res.push(Expanded { name, lines: (v["lines"][0].as_u64().unwrap_or(0) as usize, v["lines"][1].as_u64().unwrap_or(0) as usize), via: v["via"].as_str().unwrap_or("").to_string(), item, imp });
+        res.push(Expanded { file: v["file"].as_str().unwrap_or("").to_string(), name, lines: (v["lines"][0].as_u64().unwrap_or(0) as usize, v["lines"][1].as_u64().unwrap_or(0) as usize), via: v["via"].as_str().unwrap_or("").to_string(), item, imp });
     }
     Ok(res)
 }
